@@ -36,7 +36,7 @@ fn main() {
                 let v: serde_json::Value = serde_json::from_str(&line).expect("history json");
                 let h = History::from_json(&v);
                 // progress marker first, so that an abort/hang can be attributed to this history
-                writeln!(out, "{{\"k\":\"begin\",\"id\":{}}}", serde_json::to_string(&h.id).unwrap()).unwrap();
+                writeln!(out, "{{\"k\":\"begin\",\"id\":{},\"sid\":{}}}", serde_json::to_string(&h.id).unwrap(), serde_json::to_string(&h.sid).unwrap()).unwrap();
                 out.flush().unwrap();
                 for l in run_history(&h) {
                     writeln!(out, "{}", l).unwrap();
